@@ -102,9 +102,9 @@ pub fn parse_range(v: Option<&[u8]>) -> Parsed {
     if specs.is_empty() {
         return Parsed::Garbage;
     }
-    if digits_over_20 {
-        why = why.or(Some("more-than-20-digits"));
-    }
+    // A number spelled with more than 20 digits whose value fits u64 (leading zeros) is
+    // grammatical (1*DIGIT) and must be resolved like any other.
+    let _ = digits_over_20;
     if specs.iter().flat_map(spec_nums).any(|n| n > u64::MAX as u128) {
         // The statement's quantifier calls positions of 2^64 and beyond "unparseable": such a
         // header is outside the grammar as far as the property is concerned and must be ignored,
